@@ -7,7 +7,7 @@ use crate::json::Json;
 
 pub fn meta(_ctx: &Ctx) -> Meta {
     Meta {
-        rule: "every shape (c,h,w) in {1..4}^3 plus (1,1,7),(5,1,2),(2,6,1); every ordered 3-D->3-D pair; vector(n)<->3-D for n in 0..=64 against every shape; ops flatten/get_flat/get_triple/reshape and there-and-back; contents 0,1,2,.. (pairwise distinct). Non-trivial = a case with >=2 elements whose target nesting differs from the source nesting".into(),
+        rule: "every shape (c,h,w) in {1..4}^3 plus (1,1,7),(5,1,2),(2,6,1); every ordered 3-D->3-D pair; vector(n)<->3-D for n in 0..=64 against every shape; seven large shapes (1024..3072 elements, tall / wide / square) against each other and their vectors; ops flatten/get_flat/get_triple/reshape and there-and-back; contents 0,1,2,.. (pairwise distinct). Non-trivial = a case with >=2 elements whose target nesting differs from the source nesting".into(),
         bound: "extents <= 4 (plus three elongated shapes), vector lengths <= 64; complete within the bound".into(),
         exhaustive: true,
         assumptions: vec!["vector->vector reshape and get_triple are only exercised with equal counts (the refusal clause names vector<->3-D and 3-D<->3-D)".into()],
@@ -143,6 +143,16 @@ pub fn cases() -> Vec<Kv> {
             out.push(Kv::new().put("from", Dims::Flat(n).name()).put("to", Dims::Flat(n).name()));
         }
     }
+    // beyond the small bound: tensors of 1024+ elements, tall and wide planes
+    let big = [Dims::Chw(1, 16, 64), Dims::Chw(4, 32, 8), Dims::Chw(3, 32, 32), Dims::Chw(2, 40, 20), Dims::Chw(3, 20, 40), Dims::Chw(1, 1, 1100), Dims::Chw(1100, 1, 1)];
+    for a in &big {
+        out.push(Kv::new().put("from", a.name()).put("to", Dims::Flat(a.count()).name()));
+        out.push(Kv::new().put("from", Dims::Flat(a.count()).name()).put("to", a.name()));
+        out.push(Kv::new().put("from", a.name()).put("to", Dims::Flat(a.count() + 1).name()));
+        for b in &big {
+            out.push(Kv::new().put("from", a.name()).put("to", b.name()));
+        }
+    }
     out
 }
 
@@ -155,7 +165,7 @@ pub fn run(_ctx: &Ctx) -> Report {
     });
     let mut rep = Report::new();
     rep.merge_all(parts);
-    for i in [0usize, 77, 4500, cs.len() - 1] {
+    for i in [0usize, 77, 4500, cs.len() - 60] {
         rep.sample(cs[i.min(cs.len() - 1)].to_json());
     }
     rep.notes.insert("cases".into(), Json::i(cs.len() as i64));
